@@ -54,6 +54,9 @@ type Runner struct {
 	NoReopen   bool
 	NoCompact  bool
 	flushes    uint32 // committed memdb flushes seen in the DB's log
+	OnLogExtra func(line string)
+	OnOpen     func(db *leveldb.DB) // called after every successful Open (including the first)
+	OnClosing  func()               // called before every Close
 }
 
 // NewRunner opens a fresh DB on a new storage.
@@ -68,6 +71,9 @@ func NewRunner(r *rand.Rand, os model.OptSet, nkeys int, record bool) (*Runner, 
 		if strings.HasPrefix(line, "memdb@flush committed") {
 			atomic.AddUint32(&ru.flushes, 1)
 		}
+		if f := ru.OnLogExtra; f != nil {
+			f(line)
+		}
 	}
 	db, err := leveldb.Open(ru.Stor, os.Clone())
 	if err != nil {
@@ -75,6 +81,13 @@ func NewRunner(r *rand.Rand, os model.OptSet, nkeys int, record bool) (*Runner, 
 	}
 	ru.DB = db
 	return ru, nil
+}
+
+// Announce calls OnOpen for the DB opened by NewRunner (set the callbacks first).
+func (ru *Runner) Announce() {
+	if ru.OnOpen != nil && ru.DB != nil {
+		ru.OnOpen(ru.DB)
+	}
 }
 
 func hexs(b []byte) string {
@@ -265,6 +278,9 @@ func (ru *Runner) Sweep() error {
 func (ru *Runner) Reopen() error {
 	ru.NOps++
 	ru.trace("close+open")
+	if ru.OnClosing != nil {
+		ru.OnClosing()
+	}
 	if err := ru.DB.Close(); err != nil {
 		return ru.mismatch("Close returned an error", nil, nil, nil, err)
 	}
@@ -277,6 +293,9 @@ func (ru *Runner) Reopen() error {
 		return ru.mismatch("Open after clean Close failed", nil, nil, nil, err)
 	}
 	ru.DB = db
+	if ru.OnOpen != nil {
+		ru.OnOpen(db)
+	}
 	ru.Stats["reopen"]++
 	// After reopen every entry has been through recovery: treat as table-resident
 	// only after further flushes, so reset the flush bookkeeping conservatively.
@@ -376,6 +395,9 @@ func (ru *Runner) Step() error {
 func (ru *Runner) Close() error {
 	if ru.DB == nil {
 		return nil
+	}
+	if ru.OnClosing != nil {
+		ru.OnClosing()
 	}
 	err := ru.DB.Close()
 	ru.DB = nil
